@@ -30,6 +30,8 @@ def obligations(tier, seed):
         obs.append(dict(name='cmd/%s/L3' % fun, kind='cmdhash', fun=fun, L=3))
     for L in (0, 1, 2, 5): obs.append(dict(name='inline/reverse/L%d' % L, kind='reverse', L=L))
     for L in (0, 1, 5, 252, 253): obs.append(dict(name='inline/prefix_compact_size/L%d' % L, kind='prefix', L=L))
+    # the 2-byte / 4-byte boundary of the compact size (seed C14-5: 65536 got the 2-byte form); only the first and last byte of the value are symbolic
+    for L in (254, 256, 65535, 65536, 65537): obs.append(dict(name='inline/prefix_compact_size/big/L%d' % L, kind='prefixbig', L=L, timeout_s=900))
     for L in (0, 1, 5): obs.append(dict(name='cmd/len/L%d' % L, kind='cmdlen', L=L))
     for L in (0, 1, 2, 4): obs.append(dict(name='inline/hex/L%d' % L, kind='hex', L=L)); obs.append(dict(name='inline/int/L%d' % L, kind='int', L=L))
     for fun in ('add', 'sub'):
@@ -123,6 +125,9 @@ def prep(ob, V=None):
     if k == 'prefix':
         data = [var('b%d' % i) for i in range(ob['L'])]
         return 'w_tf_data', [('in', list(b'prefix_compact_size') + [0]), ('in', data), ('u32', ob['L']), ('out', 600)], io_dump(['handled', 'type', 'data']), lambda ctx: dict(handled=1, type=T_DATA, data=hashref.compact_size(ob['L']) + data), [], dict(data=data)
+    if k == 'prefixbig':
+        data = [var('b0')] + [0xab] * (ob['L'] - 2) + [var('b1')]
+        return 'w_tf_data', [('in', list(b'prefix_compact_size') + [0]), ('in', data), ('u32', ob['L']), ('out', ob['L'] + 64)], io_dump(['handled', 'type', 'data']), lambda ctx: dict(handled=1, type=T_DATA, data=hashref.compact_size(ob['L']) + data), [], dict(data=[data[0], data[-1]])
     if k == 'hex':
         data = [var('b%d' % i) for i in range(ob['L'])]
         return 'w_tf_data', [('in', list(b'hex') + [0]), ('in', data), ('u32', ob['L']), ('out', 200)], io_dump(['handled', 'type', 'str']), lambda ctx: dict(handled=1, type=T_STRING, str=C07.to_hex(data)), [], dict(data=data)
